@@ -896,3 +896,16 @@ Proof.
       exists (p :: ps1), ps2, tail. cbn [map concat app].
       repeat split; auto; [rewrite E1; reflexivity|rewrite Hw, E2, app_assoc; reflexivity].
 Qed.
+
+(** [Channel::into] (re-typing) is the identity on everything the model tracks, so
+    every statement about reads, writes and delivery holds across it. *)
+Lemma retype_id : forall c, retype c = c.
+Proof. reflexivity. Qed.
+
+Lemma retype_transparent :
+  forall (decodable : list N -> bool) c s,
+    retype c = c /\
+    read_message decodable (retype c) = read_message decodable c /\
+    readable (retype c) s = readable c s /\
+    writable (retype c) s = writable c s.
+Proof. intros decodable c s. rewrite retype_id. repeat split. Qed.
